@@ -8,9 +8,10 @@ import os
 from genlib import *
 
 LEAN_MODULES = ["MpirProofs.Props.C13"]
-THEOREMS = [
-    "Mpir.Mpf.prec_roundtrip",
-]
+THEOREMS = ["Mpir.Mpf." + t for t in """
+    prec_roundtrip prec_ge_two set_exact neg_exact abs_exact mul_2exp_exact div_2exp_exact
+    floor_spec ceil_spec trunc_spec integer_p_iff
+""".split()]
 TRUSTED = ["hand-written bit-exact mpf model lean/Mpir/Model/Mpf.lean (limb selection, truncation and normalisation mirror mpf/*.c; "
            "mpn_mul/tdiv_qr/sqrtrem/add/sub/shift are taken at value level) — tied by correspondence on every run",
            "the predicate evaluator Mpir.Ops.Mpf.evalSpec (exact integer cross-multiplication) is part of the driver"]
